@@ -834,6 +834,50 @@ fn repetition(e: &mut Exec, rng: &mut Rng, len: usize, undo_pct: u64) {
     }
 }
 
+/// C17, second sentence: a game played through the Game API in which a position occurs for
+/// the third time must be reported as drawn by Game::check_game_over_for_current_turn
+fn api_repetition(e: &mut Exec, rng: &mut Rng, games: usize) {
+    let dances: [[&str; 4]; 3] = [["g1f3", "g8f6", "f3g1", "f6g8"], ["b1c3", "b8c6", "c3b1", "c6b8"], ["g1h3", "b8a6", "h3g1", "a6b8"]];
+    for gi in 0..games {
+        e.exec("gnew 1");
+        // a few developing plies first (not for game 0: the plain knight dance)
+        if gi > 0 {
+            for mv in [["e2e4", "e7e5"], ["d2d4", "d7d5"], ["a2a3", "h7h6"]][gi % 3] {
+                e.exec(&format!("gcoord {} {}", &mv[0..2], &mv[2..4]));
+                e.exec("gtoggle");
+            }
+        }
+        let mut seen: HashMap<FullPos, u32> = HashMap::new();
+        let fp0 = full_pos(e.extra.game.as_ref().unwrap().board());
+        seen.insert(fp0, 1);
+        let dance = dances[rng.below(dances.len())];
+        'game: for _round in 0..3 {
+            for mv in dance.iter() {
+                let r = e.exec(&format!("gcoord {} {}", &mv[0..2], &mv[2..4]));
+                if !r.contains(" Ok") {
+                    break 'game;
+                }
+                e.exec("gtoggle");
+                let fp = full_pos(e.extra.game.as_ref().unwrap().board());
+                let n = {
+                    let c = seen.entry(fp.clone()).or_insert(0);
+                    *c += 1;
+                    *c
+                };
+                let over = e.exec("gover");
+                if n >= 3 {
+                    e.tally("api-third-occurrence");
+                    if !over.ends_with(" D") {
+                        let msg = format!("! C17 game API: the position [{} {} {} {}] has occurred {} times in a game played through Game::apply_chess_move_by_from_to_coordinates but check_game_over_for_current_turn answers [{}] (Game never registers positions)", fp.0, fp.1, fp.2, fp.3, n, over);
+                        e.line(&msg);
+                    }
+                    break 'game;
+                }
+            }
+        }
+    }
+}
+
 fn parse_search_move(r: &str) -> Option<ChessMove> {
     // "search Ok <score> <move>"
     let t: Vec<&str> = r.split_whitespace().collect();
@@ -869,6 +913,54 @@ fn searches(e: &mut Exec, rng: &mut Rng, kv: &Args, positions: &[(String, Pos)])
                 match parse_search_move(&r) {
                     Some(m) => e.play(&m),
                     None => break,
+                }
+            }
+        }
+    }
+}
+
+/// C09: the same search under many pool sizes and perturbed schedules, fresh cache and a cache
+/// pre-filled by an earlier search; all answers must coincide, and no cache key may ever
+/// receive two different values
+fn schedules(e: &mut Exec, rng: &mut Rng, kv: &Args, positions: &[(String, Pos)]) {
+    let depths: Vec<u8> = kv.get("depths", "2,3").split(',').map(|d| d.parse().unwrap()).collect();
+    let pools: Vec<usize> = kv.get("pools", "1,2,3,4,8,16,64").split(',').map(|d| d.parse().unwrap()).collect();
+    let per = kv.num("per", 6) as usize;
+    for (name, p) in positions {
+        e.line(&format!("# schedules for {}", name));
+        e.exec(&format!("pos {}", p.line()));
+        for d in depths.iter() {
+            let mut answers: Vec<(String, String)> = vec![];
+            for k in 0..per {
+                let n = pools[rng.below(pools.len())];
+                let mode = if k == 0 { 0 } else { 1 + rng.below(3) };
+                let seed = rng.next() % 1_000_000;
+                // fresh context each time, except every third run which reuses the previous one
+                if k % 3 != 2 {
+                    e.exec(&format!("sctx {}", d));
+                }
+                let op = format!("sched {} {} {}", n, seed, mode);
+                let r = e.exec(&op);
+                let (ev, wr) = e.extra.last_sched_stats;
+                *e.dist.entry("cache-events".into()).or_insert(0) += ev;
+                *e.dist.entry("cache-writes".into()).or_insert(0) += wr;
+                e.tally(&format!("pool-{}", n));
+                e.tally(&format!("mode-{}", mode));
+                if r.contains("CONFLICT[") {
+                    let msg = format!("! C09 a shared-cache key received two different values under `{}` at depth {} in [{}]: {}", op, d, p.line(), r);
+                    e.line(&msg);
+                }
+                if r.contains("PANIC") {
+                    let msg = format!("! C09 the search panicked under `{}` at depth {} in [{}]", op, d, p.line());
+                    e.line(&msg);
+                }
+                answers.push((op, r.split(" CONFLICT[").next().unwrap().to_string()));
+            }
+            for (op, a) in answers.iter().skip(1) {
+                if *a != answers[0].1 {
+                    let msg = format!("! C09 schedules disagree at depth {} in [{}]: `{}` gives [{}] but `{}` gives [{}]", d, p.line(), answers[0].0, answers[0].1, op, a);
+                    e.line(&msg);
+                    break;
                 }
             }
         }
@@ -1193,6 +1285,77 @@ fn book_and_engine(e: &mut Exec, rng: &mut Rng, kv: &Args, positions: &[(String,
     }
 }
 
+/// C14 at the command-line level: every label the engine itself prints for a legal move is
+/// typed into the real input layer and must be accepted as exactly that move; coordinate
+/// pairs likewise; a few malformed lines must be refused without effect
+fn cli(e: &mut Exec, rng: &mut Rng, kv: &Args, positions: &[(String, Pos)]) {
+    let per = kv.num("per", 12) as usize;
+    for (name, p) in positions {
+        e.line(&format!("# command-line inputs in {}", name));
+        e.exec(&format!("pos {}", p.line()));
+        e.exec("game 1");
+        let before = e.exec("gbsnap");
+        let labels_line = e.exec("glabels");
+        let labelled: Vec<(String, String)> = labels_line.split_whitespace().skip(1).filter_map(|t| t.split_once(':').map(|(a, b)| (a.to_string(), b.to_string()))).collect();
+        if labelled.is_empty() {
+            continue;
+        }
+        // all castles, promotions, checks and mates; a sample of the rest
+        let mut picks: Vec<usize> = (0..labelled.len()).filter(|&i| {
+            let (m, l) = &labelled[i];
+            m.starts_with('C') || m.starts_with('P') || m.starts_with('E') || l.ends_with('+') || l.ends_with('#')
+        }).collect();
+        for _ in 0..per {
+            picks.push(rng.below(labelled.len()));
+        }
+        picks.sort();
+        picks.dedup();
+        let mut inputs: Vec<(usize, bool)> = vec![];
+        for i in picks {
+            let (m, l) = &labelled[i];
+            let special = m.starts_with('C') || m.starts_with('P') || m.starts_with('E') || l.ends_with('+') || l.ends_with('#');
+            if special {
+                inputs.push((i, false));
+                inputs.push((i, true));
+            } else {
+                inputs.push((i, rng.chance(1, 3)));
+            }
+        }
+        for (i, by_coord) in inputs {
+            let (mtext, label) = labelled[i].clone();
+            let typed = if by_coord { format!("{}{}", &mtext[1..3], &mtext[3..5]) } else { label.clone() };
+            let r = e.exec(&format!("cliin {}", typed));
+            let want_move = if by_coord {
+                labelled.iter().map(|(m, _)| m).find(|m| m[1..5] == mtext[1..5]).unwrap().clone()
+            } else {
+                mtext.clone()
+            };
+            if r != format!("cliin accepted {}", want_move) {
+                let msg = format!("! C14 the engine prints `{}` for the legal move {} but typing `{}` at the prompt answers [{}] in [{}]", label, mtext, typed, r, before);
+                e.line(&msg);
+            }
+            e.tally(if by_coord { "cli-coordinates" } else { "cli-label" });
+            if r.starts_with("cliin accepted") {
+                e.exec("gunplay");
+            }
+        }
+        for bad in ["e9", "Ke1e2e3", "O-O-O-O", "xx", "e2-e4", "0-0"] {
+            let r = e.exec(&format!("cliin {}", bad));
+            if r.starts_with("cliin accepted") {
+                let msg = format!("! C14 malformed input `{}` was accepted: [{}]", bad, r);
+                e.line(&msg);
+                e.exec("gunplay");
+            }
+            e.tally("cli-malformed");
+        }
+        let after = e.exec("gbsnap");
+        if after != before {
+            let msg = format!("! C14 the game changed across accepted-and-taken-back / refused command-line inputs: before [{}] after [{}]", before, after);
+            e.line(&msg);
+        }
+    }
+}
+
 pub fn run(kv: &Args) {
     let family = kv.get("family", "walk");
     let seed = kv.num("seed", 1);
@@ -1273,7 +1436,7 @@ pub fn run(kv: &Args) {
                 repetition(&mut e, &mut r, len, undo);
             }
         }
-        "searches" | "perfts" | "games" | "engine" => {
+        "searches" | "perfts" | "games" | "engine" | "cli" | "schedules" => {
             let mut positions: Vec<(String, Pos)> = corpus_subset(kv);
             let extra = kv.num("walkpos", 0) as usize;
             let maxp = kv.num("maxpieces", 32) as usize;
@@ -1290,7 +1453,14 @@ pub fn run(kv: &Args) {
                 "searches" => searches(&mut e, &mut r, kv, &positions),
                 "perfts" => perfts(&mut e, &mut r, kv, &positions),
                 "games" => games(&mut e, &mut r, kv, &positions),
+                "cli" => cli(&mut e, &mut r, kv, &positions),
+                "schedules" => schedules(&mut e, &mut r, kv, &positions),
                 _ => book_and_engine(&mut e, &mut r, kv, &positions),
+            }
+        }
+        "apirepetition" => {
+            if shard == 0 {
+                api_repetition(&mut e, &mut rng, kv.num("count", 3) as usize);
             }
         }
         "epfamilies" => {
